@@ -204,6 +204,8 @@ def find_input(unit, proof, ob, label, work):
         return {'inputs': {'driver': 'units/C14/replay_crc.cpp', 'args': ['seed'], 'meaning': 'all 1-byte inputs, then 2000 pseudo-random strings'},
                 'native_output': out, 'reproduced': rc == 1}
     if proof.id == 'decode':
+        if not (label.startswith('post.') or label.startswith('loop.')):
+            return None      # the search targets decode's postconditions only
         res = search_decode(work)
         if not res or 'error' in res:
             return {'input_search': res or 'bounded search (packets <= 56 bytes, <= 3 attributes) found no failing input'}
